@@ -37,7 +37,7 @@ def main():
     pre = sys.argv[1:]
     vs = [v for v in selftest.patch_variants() if v['kind'] == 'control'
           and (not pre or any(os.path.basename(v['name']).startswith(p) for p in pre))]
-    with multiprocessing.Pool(min(16, max(1, len(vs)))) as pool:
+    with multiprocessing.Pool(min(16, max(1, len(vs))), maxtasksperchild=4) as pool:
         res = pool.map(work, [(repo, v) for v in vs])
     bad = 0
     for name, out in sorted(res):
